@@ -17,8 +17,8 @@ pub struct Wf {
 pub fn wf_streams(tier: Tier, weight: u64) -> Vec<Stream> {
     let q = tier == Tier::Quick;
     vec![
-        Stream::random("prog", weight * if q { 700 } else { 10000 }, 700),
-        Stream::random("progbig", weight * if q { 40 } else { 800 }, 4000),
+        Stream::random("prog", weight * if q { 1500 } else { 15000 }, 700),
+        Stream::random("progbig", weight * if q { 60 } else { 1000 }, 4000),
     ]
 }
 
